@@ -189,6 +189,16 @@ Proof.
   intros A r S x y. unfold slice_rel. rewrite (PeanoNat.Nat.eqb_sym (length x) (length y)). f_equal.
   exact (forallb_combine_sym r S x y).
 Qed.
+Theorem C17_slice_reflexive : forall (A : Type) (r : A -> A -> bool) (x : list A), (forall a, In a x -> r a a = true) -> slice_rel r x x = true.
+Proof. intros A r x H. unfold slice_rel. rewrite PeanoNat.Nat.eqb_refl. exact (forallb_combine_refl r x H). Qed.
+(* one piece (or PolyN coefficient) pair that is not related falsifies the whole slice relation *)
+Theorem C17_slice_falsified_by_one : forall (A : Type) (r : A -> A -> bool) (x y : list A) (d : A) (i : nat),
+  (i < length x)%nat -> (i < length y)%nat -> r (nth i x d) (nth i y d) = false -> slice_rel r x y = false.
+Proof.
+  intros A r x y d i Hx Hy Hr. unfold slice_rel. destruct (Nat.eqb (length x) (length y)) eqn:E; [cbn [andb]|reflexivity]. apply PeanoNat.Nat.eqb_eq in E.
+  apply (C17_falsified_by_one _ _ _ (nth i x d, nth i y d)); [|exact Hr].
+  rewrite <- combine_nth by exact E. apply nth_In. rewrite combine_length. now apply PeanoNat.Nat.min_glb_lt.
+Qed.
 (* non-vacuity: a Segment<Poly1> (3 numbers) compared with itself and with a copy moved in one position *)
 Example C17_impl_example :
   let one := of_bits 4607182418800017408%Z in let two := of_bits 4611686018427387904%Z in
